@@ -327,13 +327,21 @@ def tag(t):
     return f' // [C16:{t}]'
 
 
+def expr_call(it, k, W0):
+    """glue for the k-th `write_expression(..)?;` of the impl: the fields it wrote are appended to the fields so far"""
+    call = 'write_expression(&mut w.0, refs, encoding, unit_offsets, data)?;'
+    ghost_at(it, call, 'let ghost verif_v = w.0.wv();', nth=k)
+    ghost_at(it, call, f'proof {{ lemma_wrote_append({W0}, verif_v, w.0.wv(), cld_fields(*data, encoding, unit_offsets, verif_v.len)); }}', nth=k, after=True)
+
+
 def pair_writer(it, fn, loc):
     """contract of write_ranges / write_loc (DWARF 2-4 pair format)"""
     P, E = ('loc', 'Location') if loc else ('rng', 'Range')
     OFF = 'LocationListsOffset' if loc else 'RangeListsOffset'
     fld = 'locations' if loc else 'ranges'
     lst, ent = ('loc_list', 'loc') if loc else ('range_list', 'range')
-    S = 'address_size'
+    A = 'address_size'                                            # the local / parameter named in the body
+    S = 'encoding.address_size' if loc else 'address_size'        # the same value in terms of the parameters
     X = ', encoding, unit_offsets' if loc else ''
     XS = ', encoding, unit_offsets, old(w).0.wv().len' if loc else ''
     LISTS = f'self.{fld}@'
@@ -354,19 +362,19 @@ def pair_writer(it, fn, loc):
     ]
     outer = f'''invariant
     0 <= {I} <= {N},
-    wrote({W0}, {WC}, {P}_pair_upto({LISTS}, {I}, 0, {S}{XS})),
-    {WC}.len == {W0}.len + {P}_pair_len({LISTS}, {I}, 0, {S}{X}),
-    offsets@.len() == {I},
-    forall|i: int| 0 <= i < {I} ==> (#[trigger] offsets@[i]).0 as nat == {W0}.len + {P}_pair_len({LISTS}, i, 0, {S}{X}),
-    forall|i: int| 0 <= i < {I} ==> {P}_pair_list_ok((#[trigger] {LISTS}[i]).0@, have_unit_base_address),
-    forall|i: int, j: int| 0 <= i < {I} && 0 <= j < {LISTS}[i].0@.len() ==> {P}_pair_reads_back(#[trigger] {LISTS}[i].0@[j], {S}),'''
+    wrote({W0}, {WC}, {P}_pair_upto({LISTS}, {I}, 0, {S}{XS})),{tag("pair-fields")}
+    {WC}.len == {W0}.len + {P}_pair_len({LISTS}, {I}, 0, {S}{X}),{tag("pair-len")}
+    offsets@.len() == {I},{tag("list-offsets")}
+    forall|i: int| 0 <= i < {I} ==> (#[trigger] offsets@[i]).0 as nat == {W0}.len + {P}_pair_len({LISTS}, i, 0, {S}{X}),{tag("list-offsets")}
+    forall|i: int| 0 <= i < {I} ==> {P}_pair_list_ok((#[trigger] {LISTS}[i]).0@, have_unit_base_address),{tag("pair-reject-invalid")}
+    forall|i: int, j: int| 0 <= i < {I} && 0 <= j < {LISTS}[i].0@.len() ==> {P}_pair_reads_back(#[trigger] {LISTS}[i].0@[j], {S}),{tag("pair-unambiguous")}'''
     inner = f'''invariant
     0 <= {I} < {N}, *{lst} == {LISTS}[{I}], 0 <= {J} <= {lst}.0@.len(),
-    wrote({W0}, {WC}, {P}_pair_upto({LISTS}, {I}, {J}, {S}{XS})),
-    {WC}.len == {W0}.len + {P}_pair_len({LISTS}, {I}, {J}, {S}{X}),
-    have_base_address == {P}_base_before({lst}.0@, {J}, have_unit_base_address),
-    forall|j: int| 0 <= j < {J} ==> !{P}_pair_bad(#[trigger] {lst}.0@[j], {P}_base_before({lst}.0@, j, have_unit_base_address)),
-    forall|j: int| 0 <= j < {J} ==> {P}_pair_reads_back(#[trigger] {lst}.0@[j], {S}),'''
+    wrote({W0}, {WC}, {P}_pair_upto({LISTS}, {I}, {J}, {S}{XS})),{tag("pair-fields")}
+    {WC}.len == {W0}.len + {P}_pair_len({LISTS}, {I}, {J}, {S}{X}),{tag("pair-len")}
+    have_base_address == {P}_base_before({lst}.0@, {J}, have_unit_base_address),{tag("pair-base-state")}
+    forall|j: int| 0 <= j < {J} ==> !{P}_pair_bad(#[trigger] {lst}.0@[j], {P}_base_before({lst}.0@, j, have_unit_base_address)),{tag("pair-reject-invalid")}
+    forall|j: int| 0 <= j < {J} ==> {P}_pair_reads_back(#[trigger] {lst}.0@[j], {S}),{tag("pair-unambiguous")}'''
     it.splice(fn, ret='res', ensures=ens, loops={0: outer, 1: inner}, attrs='#[verifier::loop_isolation(false)]',
               before=[('let mut offsets = Vec::new();', BCAST)])
     # type ascription (insertion only; the type is what inference finds from the struct literal at the end)
@@ -380,20 +388,25 @@ def pair_writer(it, fn, loc):
     for k in range(2):
         ghost_at(it, 'return Err(Error::UnexpectedBaseAddress);', f'assert({P}_pair_rejects({R}, {HB}, Error::UnexpectedBaseAddress));{tag("pair-reject-kind")}', nth=k)
     # ---- entries that are written are representable, and the pair reads back as what it is
-    ghost_at(it, f'let marker = !0 >> (64 - {S} * 8);', ONES_BV, after=True)
-    ghost_at(it, f'w.write_address(address, {S})?;',
+    if f'let marker = !0 >> (64 - {A} * 8);' not in it.text:
+        raise Lost(f'{fn}: marker computation changed')
+    ghost_at(it, f'match *{ent} {{', ONES_BV, nth=0)       # all-ones of 1, 2, 4, 8 bytes as shifts of !0u64
+    ghost_at(it, f'w.write_address(address, {A})?;',
              f'assert({P}_pair_reads_back({R}, {S}));{tag("pair-reads-as-base-select")}')
-    ghost_at(it, f'w.write_udata(begin, {S})?;',
+    ghost_at(it, f'w.write_udata(begin, {A})?;',
              f'assert(!{P}_pair_bad({R}, {HB}));{tag("pair-accept-only-valid")}\n'
              f'assert({P}_pair_reads_back({R}, {S}));{tag("pair-reads-as-range")}')
-    ghost_at(it, f'w.write_address(begin, {S})?;',
+    ghost_at(it, f'w.write_address(begin, {A})?;',
              f'assert(!{P}_pair_bad({R}, {HB}));{tag("pair-accept-only-valid")}\n'
              f'assert({P}_pair_reads_back({R}, {S}));{tag("pair-reads-as-range")}', nth=0)
-    ghost_at(it, f'w.write_address(begin, {S})?;',
+    ghost_at(it, f'w.write_address(begin, {A})?;',
              f'assert(!{P}_pair_bad({R}, {HB}));{tag("pair-accept-only-valid")}\n'
              f'assert({P}_pair_reads_back({R}, {S}));{tag("pair-reads-as-range")}', nth=1)
     # ---- StartLength: the end word is begin + length (mathematically)
-    ghost_at(it, 'if begin == end {', f'assert(end == addr_add(begin, length));{tag("start-length-end")}', nth=2)
+    ghost_at(it, 'if begin == end {', f'assert(addr_add_ok(begin, length) && end == addr_add(begin, length));{tag("start-length-end")}', nth=2)
+    if loc:
+        for k in range(3):
+            expr_call(it, k, W0)
 
 
 def coded_writer(it, fn, loc):
@@ -425,18 +438,21 @@ def coded_writer(it, fn, loc):
     ]
     outer = f'''invariant
     0 <= {I} <= {N},
-    wrote({W0}, {WC}, {P}_{V}_upto({LISTS}, {I}, 0, {S}{XS}{H})),
-    {WC}.len == {W0}.len + {P}_{V}_len({LISTS}, {I}, 0, {S}{X}{H}),
-    offsets@.len() == {I}, length_base as nat <= {WC}.len,
-    forall|i: int| 0 <= i < {I} ==> (#[trigger] offsets@[i]).0 as nat == {W0}.len + {P}_{V}_len({LISTS}, i, 0, {S}{X}{H}),'''
+    wrote({W0}, {WC}, {P}_{V}_upto({LISTS}, {I}, 0, {S}{XS}{H})),{tag("coded-fields")}
+    {WC}.len == {W0}.len + {P}_{V}_len({LISTS}, {I}, 0, {S}{X}{H}),{tag("coded-len")}
+    offsets@.len() == {I}, length_base as nat <= {WC}.len,{tag("list-offsets")}
+    forall|i: int| 0 <= i < {I} ==> (#[trigger] offsets@[i]).0 as nat == {W0}.len + {P}_{V}_len({LISTS}, i, 0, {S}{X}{H}),{tag("list-offsets")}'''
     inner = f'''invariant
     0 <= {I} < {N}, *{lst} == {LISTS}[{I}], 0 <= {J} <= {lst}.0@.len(),
-    wrote({W0}, {WC}, {P}_{V}_upto({LISTS}, {I}, {J}, {S}{XS}{H})),
-    {WC}.len == {W0}.len + {P}_{V}_len({LISTS}, {I}, {J}, {S}{X}{H}), length_base as nat <= {WC}.len,'''
+    wrote({W0}, {WC}, {P}_{V}_upto({LISTS}, {I}, {J}, {S}{XS}{H})),{tag("coded-fields")}
+    {WC}.len == {W0}.len + {P}_{V}_len({LISTS}, {I}, {J}, {S}{X}{H}), length_base as nat <= {WC}.len,{tag("coded-len")}'''
     it.splice(fn, ret='res', ensures=ens, loops={0: outer, 1: inner}, attrs='#[verifier::loop_isolation(false)]',
               before=[('let mut offsets = Vec::new();', BCAST),
                       ('let length_offset = w.write_initial_length(encoding.format)?;', 'proof { lemma_wrote_nil(w.0.wv()); }')])
     it.insert_after('let mut offsets', f': Vec<{OFF}>', nth=1)
+    if loc:
+        for k in range(3, 7):
+            expr_call(it, k, W0)
 
 
 def populate(ctx, sk, locations=True):
@@ -485,7 +501,93 @@ use crate::wlspec::*;''')
     pair_writer(ti, 'write_ranges', False)
     coded_writer(ti, 'write_rnglists', False)
     sk.add(M, ti)
+    if locations:
+        populate_loc(ctx, sk, wmod, sec)
     return sk
+
+
+def populate_loc(ctx, sk, wmod, sec):
+    loc = Source('write/loc.rs', ctx)
+    wu_ = wsource('write/unit.rs', ctx)
+    wo = Source('write/op.rs', ctx)
+    sk.mods['write']['uses'] += '\npub use self::unit::*;\npub use self::op::*;\npub use self::loc::*;'
+
+    # ---- write::unit: the types that appear in the signatures (ids, offsets, fixups); nothing of them is used here
+    U_ = 'write::unit'
+    sk.module(U_, 'use crate::common::DebugInfoOffset;\nuse crate::write::BaseId;')
+    id_type(ctx, sk, U_, wmod, 'UnitId')
+    id_type(ctx, sk, U_, wmod, 'UnitEntryId')
+    sk.add(U_, wu_.item(r'^pub\(crate\) struct UnitOffsets \{', label='UnitOffsets').clean())
+    sk.add(U_, wu_.item(r'^pub\(crate\) struct DebugInfoFixup \{', label='DebugInfoFixup').clean())
+
+    # ---- write::op: Expression as an opaque value with `size` / `write` under ASSUMED contracts (verified in batch wop)
+    O_ = 'write::op'
+    sk.module(O_, '''use crate::common::Encoding;
+use crate::write::{DebugInfoFixup, Error, Result, UnitOffsets, Writer};
+use crate::wspec::*;''')
+    ex = debug_only(wo.item(r'^pub struct Expression \{', label='Expression'))
+    # R-FIELDS: `operations: Vec<Operation>` (the private operation enum and everything it drags in) is not touched by any
+    # function with a body in this batch: size / write are external_body
+    ex.custom('R-FIELDS', 'operations: Vec<Operation>,', '')
+    sk.add(O_, ex.clean())
+    ei = wo.item(r'^impl Expression \{', label='Expression(impl)')
+    ei.keep_only(['size', 'write'])
+    ei.extbody(['size', 'write'])
+    ei.clean()
+    ei.insert_members(EXPR_GHOST)
+    ei.splice('size', ret='res', ensures=[
+        '[C15:size-sum] res matches Ok(n) ==> n as nat == self.spec_size(encoding, unit_offsets)'])
+    ei.splice('write', ret='res', ensures=[
+        '[C15:size-eq-len] res is Ok ==> final(w).wv().len == old(w).wv().len + self.spec_size(encoding, unit_offsets)',
+        '[C15:fields] res is Ok ==> wrote(old(w).wv(), final(w).wv(), self.spec_fields(encoding, unit_offsets, old(w).wv().len))',
+        '[C15:frame] grew(old(w).wv(), final(w).wv())'])
+    sk.add(O_, ei)
+
+    # ---- write::loc
+    M = 'write::loc'
+    sk.module(M, '''use core::ops::{Deref, DerefMut};
+use crate::common::{Encoding, Format, LocationListsOffset, SectionId};
+use crate::write::{Address, BaseId, DebugInfoFixup, Error, Expression, Result, UnitOffsets, Writer};
+use crate::vspec::*;
+use crate::wspec::*;
+use crate::wlspec::*;''')
+    check_invocation(loc, 'define_section', ['DebugLoc,', 'LocationListsOffset,'])
+    check_invocation(loc, 'define_section', ['DebugLocLists,', 'LocationListsOffset,'])
+    check_invocation(loc, 'define_offsets', ['LocationListOffsets:', 'LocationListId', '=>', 'LocationListsOffset,'])
+    check_invocation(loc, 'define_id', ['LocationListId,'])
+    section_type(ctx, sk, M, sec, 'DebugLoc', 'LocationListsOffset')
+    section_type(ctx, sk, M, sec, 'DebugLocLists', 'LocationListsOffset')
+    id_type(ctx, sk, M, wmod, 'LocationListId')
+    offsets_type(ctx, sk, M, wmod, 'LocationListOffsets', 'LocationListId', 'LocationListsOffset')
+    sk.add(M, debug_only(loc.item(r'^pub struct LocationList\(', label='LocationList')).clean())
+    sk.add(M, debug_only(loc.item(r'^pub enum Location \{', label='Location')).clean())
+    sk.add(M, LOC_SPEC + gen_spec(True), label='loc-spec(generated)')
+    we = loc.item(r'^fn write_expression<', label='write_expression').clean()
+    W0, W1 = 'old(w).wv()', 'final(w).wv()'
+    we.splice('write_expression', ret='res', owners=OWN, ensures=[
+        # DWARF 2.6.2: the prefix is the number of bytes of the location description that follows it
+        f'[C16:counted-location] res is Ok ==> wrote({W0}, {W1}, cld_fields(*val, encoding, unit_offsets, {W0}.len)) '
+        f'&& {W1}.len == {W0}.len + cld_len(*val, encoding, unit_offsets)',
+        '[C16:counted-location-too-large] encoding.version <= 4 && val.spec_size(encoding, unit_offsets) > 0xffff ==> res is Err',
+        f'[C16:frame] grew({W0}, {W1})'],
+        before=[('let size = ', BCAST + ' let ghost verif_v0 = w.wv();'),
+                ('val.write(w, Some(refs), encoding, unit_offsets)?;',
+                 'let ghost verif_v1 = w.wv(); proof { lemma_emitted_wrote(verif_v0, verif_v1, cld_prefix(val.spec_size(encoding, unit_offsets), encoding.version)); }')],
+        after=[('val.write(w, Some(refs), encoding, unit_offsets)?;',
+                'proof { lemma_wrote_wrote(verif_v0, verif_v1, w.wv(), Seq::<WOp>::empty().push(cld_prefix(val.spec_size(encoding, unit_offsets), encoding.version)), '
+                'val.spec_fields(encoding, unit_offsets, verif_v1.len)); '
+                'assert(seq![cld_prefix(val.spec_size(encoding, unit_offsets), encoding.version)] =~= Seq::<WOp>::empty().push(cld_prefix(val.spec_size(encoding, unit_offsets), encoding.version))); }')])
+    sk.add(M, we)
+    tb = loc.item(r'^pub struct LocationListTable \{', label='LocationListTable')
+    tb.custom('R-MAP', 'locations: FnvIndexSet<LocationList>,', 'locations: Vec<LocationList>,')
+    sk.add(M, tb.clean())
+    ti = loc.item(r'^impl LocationListTable \{', label='LocationListTable(impl)')
+    ti.keep_only(['write_loc', 'write_loclists'])
+    ti.clean()
+    ti.own(OWN)
+    pair_writer(ti, 'write_loc', True)
+    coded_writer(ti, 'write_loclists', True)
+    sk.add(M, ti)
 
 
 def build(ctx):
